@@ -405,7 +405,7 @@ impl ReadOracle {
                     }
                     out.push(Expect {
                         group: 34,
-                        var: if h.var == 0 { 3 } else { h.var },
+                        var: h.var,
                         index: *index,
                         ptype: *pt,
                         val: StaticVal {
@@ -495,7 +495,13 @@ impl ReadOracle {
 }
 
 fn object_matches(e: &Expect, m: &refapp::Meas) -> bool {
-    if m.group != e.group || m.var != e.var || m.index != e.index as u32 || m.ptype != e.ptype {
+    // (variation 0 in an expectation: no variation was requested and none is configured - dead-bands read with g34v0 -
+    // so any variation that carries the value will do)
+    if m.group != e.group
+        || (m.var != e.var && e.var != 0)
+        || m.index != e.index as u32
+        || m.ptype != e.ptype
+    {
         return false;
     }
     if let Some(b) = &m.bytes {
